@@ -236,12 +236,17 @@ class FixedStager(Stager):
 
 
 class ProbeBar:
-    """progress_bar_class: records the parent's update calls (n_process > 1) / iteration (== 1)."""
+    """progress_bar_class: records every call sample_chains makes on the per-chain progress bars
+    (sequence assignment, __enter__, update, __exit__) -- always in the parent process."""
 
     def __init__(self, sequence, description=None, position=(0, 1)):
         self._sequence, self.description = sequence, description
         self._n_iter = len(sequence)
         self._active = False
+        try:
+            self.chain = int(str(description).split()[1].split("/")[0])
+        except (IndexError, ValueError):
+            self.chain = 0
 
     @property
     def sequence(self):
@@ -249,6 +254,7 @@ class ProbeBar:
 
     @sequence.setter
     def sequence(self, value):
+        log_event("BarSeq", c=self.chain, n=len(value), active=bool(self._active))
         self._sequence, self._n_iter = value, len(value)
 
     @property
@@ -265,12 +271,14 @@ class ProbeBar:
             self.update(i + 1, d)
 
     def update(self, iter_count, iter_dict=None, *, refresh=True):
-        log_event("ParentUpd", bar=self.description, i=iter_count)
+        log_event("BarUpd", c=self.chain, i=int(iter_count), active=bool(self._active))
 
     def __enter__(self):
         self._active = True
+        log_event("BarEnter", c=self.chain)
         return self
 
     def __exit__(self, *a):
         self._active = False
+        log_event("BarExit", c=self.chain)
         return False
